@@ -569,6 +569,114 @@ def chanclose(rng, i):
     return {"kind": "chanclose", "cfg": {}, "steps": steps}
 
 
+def chclose_cross(rng, i):
+    """Channel close crossing: the client's Channel.Close is in flight (its CloseOk withheld) when the
+    server closes the same channel itself; the server then (usually) also acknowledges the client's
+    Close, as a real broker in its closing state does.  Ids are caller-chosen.  Bystanders keep
+    working and the id can be reopened."""
+    n = rng.choice([2, 3])
+    steps, ids = opens(n, rng.sample(range(1, 40), n))
+    hs = NAMES[:n]
+    victim = rng.choice(hs)
+    ch = ids[victim]
+    cons = []
+    if rng.random() < 0.5:
+        steps.append({"do": "consume", "h": victim, "as": "cv"})
+        cons.append("cv")
+    steps.append({"do": "hold", "ch": ch})
+    steps.append({"do": "mark"})
+    steps.append({"do": "close", "h": victim, "async": True})
+    steps.append({"do": "await", "ev": "recv_begin", "n": 1})
+    if rng.random() < 0.7:
+        steps.append({"do": "sync"})
+    close = {"k": "chclose", "ch": ch, "code": rng.choice([404, 406]), "text": "NOT_FOUND - x"}
+    r = rng.random()
+    if r < 0.4:
+        steps.append(srv(close, {"k": "chcloseok", "ch": ch}))
+    elif r < 0.8:
+        steps.append(srv(close))
+        if rng.random() < 0.5:
+            steps.append({"do": "sync"})
+        steps.append(srv({"k": "chcloseok", "ch": ch}))
+    else:
+        steps.append(srv(close))
+    steps.append({"do": "sync"})
+    steps.append({"do": "unhold", "ch": ch, "discard": True})
+    steps.append({"do": "wait", "who": victim})
+    for h in hs:
+        if h != victim:
+            steps.append(op(h, rng.choice(["qos", "declare", "get"])))
+    steps.append({"do": "open", "as": "Z", "req": ch})
+    steps.append(op("Z", "declare", q="again"))
+    for c in cons:
+        steps.append({"do": "drain", "c": c})
+    steps.append({"do": "closeconn"})
+    return {"kind": "chclose-cross", "cfg": {}, "steps": steps}
+
+
+def reply_then_close(rng, i):
+    """A slow caller: its request is sent and its reply is withheld; the caller is then held just
+    before it starts waiting.  The server sends the reply and, in the same burst, ends the connection
+    (its own Connection.Close, or the CloseOk to a client close issued meanwhile) or the channel.
+    Only then the caller runs on: it gets its reply, the NEXT call reports the close, everybody else
+    is told the right reason and the final handshake is completed."""
+    n = rng.choice([1, 2, 3])
+    steps, ids = opens(n, rng.sample(range(1, 30), n))
+    hs = NAMES[:n]
+    cons = []
+    for h in hs:
+        if rng.random() < 0.5:
+            steps.append({"do": "consume", "h": h, "as": "c" + h})
+            cons.append("c" + h)
+    slow = rng.sample(hs, rng.choice([1, min(2, n)]))
+    for h in slow:
+        steps.append({"do": "hold", "ch": ids[h]})
+    steps.append({"do": "mark"})
+    steps.append({"do": "rgate", "on": True})
+    for h in slow:
+        steps.append(dict(op(h, rng.choice(["qos", "declare", "purge", "recover"])), **{"async": True}))
+    steps.append({"do": "await", "ev": "recv_begin", "n": len(slow)})
+    steps.append({"do": "await", "ev": "c2s", "n": len(slow)})    # their requests have reached the server
+    steps.append({"do": "sync"})
+    how = rng.choice(["srvclose", "srvclose", "cliclose", "chclose"])
+    if how == "srvclose":
+        fr = {"k": "connclose", "code": rng.choice([320, 541]), "text": "CONNECTION_FORCED - x"}
+        for h in slow[:-1]:
+            steps.append({"do": "unhold", "ch": ids[h]})
+            steps.append({"do": "release", "ch": ids[h]})
+        steps.append({"do": "unhold", "ch": ids[slow[-1]]})
+        steps.append(dict(srv(fr), release=ids[slow[-1]]))
+    elif how == "cliclose":
+        steps.append({"do": "hold", "ch": 0})
+        steps.append({"do": "mark"})
+        steps.append({"do": "closeconn", "async": True})
+        steps.append({"do": "await", "ev": "c2s", "n": 1})        # the client's Close has reached the server
+        steps.append({"do": "sync"})
+        for h in slow[:-1]:
+            steps.append({"do": "unhold", "ch": ids[h]})
+            steps.append({"do": "release", "ch": ids[h]})
+        steps.append({"do": "unhold", "ch": ids[slow[-1]]})
+        steps.append({"do": "unhold", "ch": 0, "discard": True})
+        steps.append(dict(srv({"k": "conncloseok"}), release=ids[slow[-1]]))
+    else:
+        h = slow[-1]
+        for g in slow[:-1]:
+            steps.append({"do": "unhold", "ch": ids[g]})
+            steps.append({"do": "release", "ch": ids[g]})
+        steps.append({"do": "unhold", "ch": ids[h]})
+        steps.append(dict(srv({"k": "chclose", "ch": ids[h], "code": 406, "text": "PRECONDITION_FAILED"}), release=ids[h]))
+    steps.append({"do": "sync"})
+    steps.append({"do": "rgate", "on": False})
+    for h in slow:
+        steps.append({"do": "wait", "who": h})
+    for h in hs:
+        steps.append(op(h, rng.choice(["qos", "declare"])))
+    for c in cons:
+        steps.append({"do": "drain", "c": c})
+    steps.append({"do": "closeconn"})
+    return {"kind": "connclose-slowcaller", "cfg": {}, "steps": steps}
+
+
 def backlog(rng, i):
     """More than a megabyte queued behind a stalled transport, then drained by short writes that
     never block again (large accepts, but smaller than the backlog)."""
@@ -907,7 +1015,7 @@ def batches(rng, maxlen, bases, reps=1):
     return res
 
 
-FAMILIES = {"listener_split": listener_split, "mixed": mixed, "pubflags": pubflags, "backlog": backlog, "hb_silence": hb_silence, "listener_cross": listener_cross, "close_slow": close_slow, "consumer_drop": consumer_drop, "rpc": rpc, "content": content, "consumer": consumer, "listeners": listeners,
+FAMILIES = {"reply_then_close": reply_then_close, "chclose_cross": chclose_cross, "listener_split": listener_split, "mixed": mixed, "pubflags": pubflags, "backlog": backlog, "hb_silence": hb_silence, "listener_cross": listener_cross, "close_slow": close_slow, "consumer_drop": consumer_drop, "rpc": rpc, "content": content, "consumer": consumer, "listeners": listeners,
             "connclose": connclose, "chanclose": chanclose}
 
 
